@@ -46,19 +46,21 @@ Record sworld := {
   sw_must_input : option (nat * nat * str);
   sw_err : list (nat * nat);             (* screen -> consecutive rejections *)
   sw_follow : option follow;
-  sw_prev_user : option (nat * list nat) (* the previous EUser event (tag, args) *)
+  sw_prev_user : option (nat * list nat); (* the previous EUser event (tag, args) *)
+  sw_last : list (nat * option (bool * str))   (* per input handler, newest first: Some = the ready signal it got last
+                                                  (success, data); None = it has asked again since *)
 }.
 #[export] Instance eta_sworld : Settable _ :=
   settable! Build_sworld <sw_stack; sw_expect; sw_popped_modal; sw_failed; sw_ready; sw_closed_pending; sw_pframes;
                           sw_modal; sw_replaced; sw_req; sw_blocking; sw_typed; sw_line; sw_istack; sw_processing;
-                          sw_handoff; sw_received; sw_fired; sw_must_input; sw_err; sw_follow; sw_prev_user>.
+                          sw_handoff; sw_received; sw_fired; sw_must_input; sw_err; sw_follow; sw_prev_user; sw_last>.
 
 Definition sworld0 (typed : list (option str)) : sworld :=
   {| sw_stack := []; sw_expect := []; sw_popped_modal := false; sw_failed := None; sw_ready := [];
      sw_closed_pending := None; sw_pframes := []; sw_modal := []; sw_replaced := None; sw_req := [];
      sw_blocking := []; sw_typed := typed; sw_line := []; sw_istack := []; sw_processing := false;
      sw_handoff := []; sw_received := []; sw_fired := []; sw_must_input := None; sw_err := [];
-     sw_follow := None; sw_prev_user := None |}.
+     sw_follow := None; sw_prev_user := None; sw_last := [] |}.
 
 Definition mem (n : nat) (l : list nat) : bool := existsb (Nat.eqb n) l.
 Fixpoint alookup {A} (k : nat) (m : list (nat * A)) : option A :=
@@ -131,7 +133,7 @@ Definition user_step (w : sworld) (tag : nat) (a : list nat) (text : str) : swor
       <| sw_follow := match sw_follow w with Some FReprompt => None | x => x end |>
   else if (tag =? T_ASK)%nat then w <| sw_blocking := nth0 a 1 :: sw_blocking w |>
   else if (tag =? T_PROMPT)%nat then
-    let w1 := w <| sw_istack := nth0 a 0 :: sw_istack w |> in
+    let w1 := w <| sw_istack := nth0 a 0 :: sw_istack w |> <| sw_last := (nth0 a 0, None) :: sw_last w |> in
     if (nth0 a 1 =? 0)%nat then
       w1 <| sw_processing := true |>
          <| sw_line := match sw_typed w with Some l :: _ => l | _ => [] end |>
@@ -141,7 +143,9 @@ Definition user_step (w : sworld) (tag : nat) (a : list nat) (text : str) : swor
     let n := nth0 a 0 in
     let ok := (nth0 a 1 =? 1)%nat in
     let w1 := w <| sw_received := n :: sw_received w |>
-                <| sw_handoff := remove_first (fun x => (fst (fst x) =? n)%nat) (sw_handoff w) |> in
+                <| sw_last := (n, Some (ok, text)) :: sw_last w |>
+                <| sw_handoff := remove_first (fun x => (fst (fst x) =? n)%nat && Bool.eqb (snd (fst x)) ok && streq (snd x) text)
+                                              (sw_handoff w) |> in
     if ok && negb (mem n (sw_fired w)) then
       match alookup n (sw_req w) with
       | Some (scr, args) => w1 <| sw_must_input := Some (scr, args, text) |> <| sw_fired := n :: sw_fired w |>
@@ -360,6 +364,14 @@ Definition chk_C18 (w : sworld) (e : event) : bool :=
       existsb (fun x => (fst (fst x) =? nth0 a 0)%nat && Bool.eqb (snd (fst x)) (nth0 a 1 =? 1)%nat && streq (snd x) text)
               (sw_handoff w)
     else if (tag =? T_GOT)%nat then mem (nth0 a 1) (sw_received w)      (* the wait returns only after its own answer *)
+    else if (tag =? T_WAITED)%nat then
+      (* h.wait_on_input() returned: handler n got a ready signal since it last asked, and (input_successful(), value)
+         are those of the LAST ready signal delivered to it *)
+      match alookup (nth0 a 1) (sw_last w) with
+      | Some (Some (ok, v)) =>
+        Bool.eqb ok (nth0 a 2 =? 1)%nat && (negb ok || ((nth0 a 3 =? 1)%nat && streq v text))
+      | _ => false
+      end
     else true
   | _ => true
   end.
